@@ -196,20 +196,48 @@ example : (∃ res, checkProof (Toy.rules []) ⟨false, false, 0⟩ 5 exExp = .o
 
 /-! ### `checked_extend` -/
 
-/-- Every theorem in the table after `checked_extend` was there before, or is reported as an axiom,
-or was offered with a proof that `check_proof` accepts with `no_gaps=True` (in the theory as it was
-at that moment), reports no gap for, and whose final sequent `can_prove`s the stated theorem — which
-therefore has a derivation without unproved leaves. -/
-theorem extend_admits_only_proved (R : List (String × Seq) → Rules) (fuel : Nat) :
+/-- One extension offered with a proof and installed without error: the proof is accepted by
+`check_proof` with `no_gaps=True` in the theory as it is, reports no gap, its final sequent
+`can_prove`s the stated theorem (which so has a derivation without unproved leaves), the theorem is
+what the table now holds under that name, and nothing is added to the axiom report. -/
+theorem extend_admits_only_proved (R : List (String × Seq) → Rules) (fuel : Nat) (st st' : ExtState)
+    (name : String) (th : Seq) (prf : List Item)
+    (h : checkedExtend R fuel st [.theorem name th (some prf)] = (st', none)) :
+    ∃ res r, checkProof (R st.theorems) ⟨true, false, 0⟩ fuel prf = .ok res ∧ res.gaps = [] ∧
+      res.th = some r ∧ canProve r th = true ∧
+      (∃ q, Justified (R st.theorems) (fun _ => False) q ∧ canProve q th = true) ∧
+      lookupThm st'.theorems name = some th ∧ st'.axioms = st.axioms := by
+  simp only [checkedExtend] at h
+  split at h
+  · simp at h
+  · rename_i res hres
+    split at h
+    · simp at h
+    · rename_i r hr
+      split at h
+      · rename_i hcp
+        simp only [Prod.mk.injEq, and_true] at h
+        subst h
+        have hg := (no_gaps_exact _ _ _ _ _ rfl hres).1
+        obtain ⟨q, hq, hqr⟩ := (no_gaps_justified _ _ _ _ _ rfl rfl hres).2 r hr
+        exact ⟨res, r, hres, hg, hr, hcp, ⟨q, hq, canProve_trans hqr hcp⟩, lookupThm_upsert_self _ _ _, rfl⟩
+      · simp at h
+
+/-- Invariant of `checked_extend` over a whole list of extensions, names may repeat and overwrite
+each other: whatever the table holds under a name afterwards was held under that name before, or is
+reported as an axiom, or comes from an extension `pre ++ [Theorem(name, th, prf)] ++ post` of the
+list whose proof `check_proof` accepts with `no_gaps=True` in the table reached after `pre`,
+without gaps, concluding `th` — so `th` has a derivation without unproved leaves over that table. -/
+theorem extend_list_admits_only_proved (R : List (String × Seq) → Rules) (fuel : Nat) :
     ∀ (exts : List Ext) (st st' : ExtState) (err : Option Err),
       checkedExtend R fuel st exts = (st', err) →
-      ∀ name th, (name, th) ∈ st'.theorems →
-        (name, th) ∈ st.theorems ∨ (name, th) ∈ st'.axioms ∨
-        ∃ prf thms res r, Ext.theorem name th (some prf) ∈ exts ∧
-          st.theorems <+: thms ∧ thms <+: st'.theorems ∧
-          checkProof (R thms) ⟨true, false, 0⟩ fuel prf = .ok res ∧ res.gaps = [] ∧
+      ∀ name th, lookupThm st'.theorems name = some th →
+        lookupThm st.theorems name = some th ∨ (name, th) ∈ st'.axioms ∨
+        ∃ pre post prf mid res r, exts = pre ++ Ext.theorem name th (some prf) :: post ∧
+          checkedExtend R fuel st pre = (mid, none) ∧
+          checkProof (R mid.theorems) ⟨true, false, 0⟩ fuel prf = .ok res ∧ res.gaps = [] ∧
           res.th = some r ∧ canProve r th = true ∧
-          ∃ q, Justified (R thms) (fun _ => False) q ∧ canProve q th = true := by
+          ∃ q, Justified (R mid.theorems) (fun _ => False) q ∧ canProve q th = true := by
   intro exts
   induction exts with
   | nil =>
@@ -218,40 +246,47 @@ theorem extend_admits_only_proved (R : List (String × Seq) → Rules) (fuel : N
     rw [← h.1] at hm; exact Or.inl hm
   | cons e rest ih =>
     intro st st' err h name th hm
+    -- from the invariant of `rest` started in the state after `e`
     have lift : ∀ st1 : ExtState, checkedExtend R fuel st1 rest = (st', err) →
-        st.theorems <+: st1.theorems →
-        ((name, th) ∈ st1.theorems → (name, th) ∈ st.theorems ∨ (name, th) ∈ st'.axioms ∨
-          ∃ prf thms res r, Ext.theorem name th (some prf) ∈ e :: rest ∧
-          st.theorems <+: thms ∧ thms <+: st'.theorems ∧
-          checkProof (R thms) ⟨true, false, 0⟩ fuel prf = .ok res ∧ res.gaps = [] ∧
-          res.th = some r ∧ canProve r th = true ∧
-          ∃ q, Justified (R thms) (fun _ => False) q ∧ canProve q th = true) →
-        (name, th) ∈ st.theorems ∨ (name, th) ∈ st'.axioms ∨
-          ∃ prf thms res r, Ext.theorem name th (some prf) ∈ e :: rest ∧
-          st.theorems <+: thms ∧ thms <+: st'.theorems ∧
-          checkProof (R thms) ⟨true, false, 0⟩ fuel prf = .ok res ∧ res.gaps = [] ∧
-          res.th = some r ∧ canProve r th = true ∧
-          ∃ q, Justified (R thms) (fun _ => False) q ∧ canProve q th = true := by
-      intro st1 h1 hpre hin
-      rcases ih st1 st' err h1 name th hm with h2 | h2 | ⟨prf, thms, res, r, hmem, hp1, hp2, hrest⟩
+        (∀ pre mid, checkedExtend R fuel st1 pre = (mid, none) →
+          checkedExtend R fuel st (e :: pre) = (mid, none)) →
+        (lookupThm st1.theorems name = some th →
+          lookupThm st.theorems name = some th ∨ (name, th) ∈ st'.axioms ∨
+          ∃ pre post prf mid res r, e :: rest = pre ++ Ext.theorem name th (some prf) :: post ∧
+            checkedExtend R fuel st pre = (mid, none) ∧
+            checkProof (R mid.theorems) ⟨true, false, 0⟩ fuel prf = .ok res ∧ res.gaps = [] ∧
+            res.th = some r ∧ canProve r th = true ∧
+            ∃ q, Justified (R mid.theorems) (fun _ => False) q ∧ canProve q th = true) →
+        lookupThm st.theorems name = some th ∨ (name, th) ∈ st'.axioms ∨
+          ∃ pre post prf mid res r, e :: rest = pre ++ Ext.theorem name th (some prf) :: post ∧
+            checkedExtend R fuel st pre = (mid, none) ∧
+            checkProof (R mid.theorems) ⟨true, false, 0⟩ fuel prf = .ok res ∧ res.gaps = [] ∧
+            res.th = some r ∧ canProve r th = true ∧
+            ∃ q, Justified (R mid.theorems) (fun _ => False) q ∧ canProve q th = true := by
+      intro st1 h1 hstep hin
+      rcases ih st1 st' err h1 name th hm with h2 | h2 | ⟨pre, post, prf, mid, res, r, hsplit, hpre, hrest⟩
       · exact hin h2
       · exact Or.inr (Or.inl h2)
-      · exact Or.inr (Or.inr ⟨prf, thms, res, r, List.mem_cons_of_mem _ hmem, hpre.trans hp1, hp2, hrest⟩)
+      · exact Or.inr (Or.inr ⟨e :: pre, post, prf, mid, res, r, by rw [hsplit]; rfl, hstep pre mid hpre, hrest⟩)
     cases e with
     | other =>
       simp only [checkedExtend] at h
-      exact lift st h (List.prefix_refl _) (fun hin => Or.inl hin)
+      exact lift st h (fun pre mid hp => by simpa [checkedExtend] using hp) (fun hin => Or.inl hin)
     | «theorem» n t prf =>
       cases prf with
       | none =>
         simp only [checkedExtend] at h
-        refine lift _ h (List.prefix_append _ _) ?_
+        refine lift _ h (fun pre mid hp => by simpa [checkedExtend] using hp) ?_
         intro hin
-        rcases List.mem_append.mp hin with hin | hin
-        · exact Or.inl hin
-        · refine Or.inr (Or.inl ?_)
-          have hax := (checkedExtend_prefix R fuel rest _ st' err h).2
-          exact hax.subset (List.mem_append_right _ hin)
+        by_cases hn : name = n
+        · subst hn
+          rw [lookupThm_upsert_self] at hin
+          simp only [Option.some.injEq] at hin
+          subst hin
+          refine Or.inr (Or.inl ?_)
+          exact (checkedExtend_axioms_prefix R fuel rest _ st' err h).subset (List.mem_append_right _ (by simp))
+        · rw [lookupThm_upsert_ne _ _ _ hn] at hin
+          exact Or.inl hin
       | some p =>
         simp only [checkedExtend] at h
         split at h
@@ -262,20 +297,26 @@ theorem extend_admits_only_proved (R : List (String × Seq) → Rules) (fuel : N
           · rename_i r hr
             split at h
             · rename_i hcp
-              refine lift _ h (List.prefix_append _ _) ?_
+              refine lift _ h (fun pre mid hp => by simpa [checkedExtend, hres, hr, hcp] using hp) ?_
               intro hin
-              rcases List.mem_append.mp hin with hin | hin
-              · exact Or.inl hin
-              · simp only [List.mem_singleton, Prod.mk.injEq] at hin
-                obtain ⟨rfl, rfl⟩ := hin
+              by_cases hn : name = n
+              · subst hn
+                rw [lookupThm_upsert_self] at hin
+                simp only [Option.some.injEq] at hin
+                subst hin
                 have hg := (no_gaps_exact _ _ _ _ _ rfl hres).1
-                have hj := (no_gaps_justified _ _ _ _ _ rfl rfl hres).2 r hr
-                have hpre := (checkedExtend_prefix R fuel rest _ st' err h).1
-                refine Or.inr (Or.inr ⟨p, st.theorems, res, r, List.mem_cons_self, List.prefix_refl _,
-                  (List.prefix_append _ _).trans hpre, hres, hg, hr, hcp, ?_⟩)
-                obtain ⟨q, hq, hqr⟩ := hj
-                exact ⟨q, hq, canProve_trans hqr hcp⟩
+                obtain ⟨q, hq, hqr⟩ := (no_gaps_justified _ _ _ _ _ rfl rfl hres).2 r hr
+                exact Or.inr (Or.inr ⟨[], rest, p, st, res, r, rfl, rfl, hres, hg, hr, hcp,
+                  q, hq, canProve_trans hqr hcp⟩)
+              · rw [lookupThm_upsert_ne _ _ _ hn] at hin
+                exact Or.inl hin
             · simp only [Prod.mk.injEq] at h; rw [← h.1] at hm; exact Or.inl hm
+
+/- a name given twice: the second statement replaces the first, both axioms are reported; a proof by
+`theorem a` offered afterwards for the OLD statement is refused -/
+example : (checkedExtend Toy.rules 5 ⟨[], []⟩ [.theorem "a" ⟨[], 0⟩ none, .theorem "a" ⟨[], 1⟩ none,
+      .theorem "c" ⟨[], 0⟩ (some [⟨[0], "theorem", .str "a", [], none, none⟩])])
+    = (⟨[("a", ⟨[], 1⟩)], [("a", ⟨[], 0⟩), ("a", ⟨[], 1⟩)]⟩, some (.check .notConclude)) := rfl
 
 /- a proof of `⊢ 1` offered for `⊢ 0` is refused; the right proof is admitted and is not an axiom -/
 example : (checkedExtend Toy.rules 5 ⟨[], []⟩ [.theorem "bogus" ⟨[], 0⟩ (some [axItem 0 [] 1 none])]).2
